@@ -8,6 +8,7 @@ on the real engine; the same list (as `ev` terms) is replayed by the model insid
 and the canonical views after every event are compared token by token.
 """
 import collections
+import json
 import os
 import copy
 import random
@@ -180,9 +181,11 @@ def real_view(d, prog):
         if not wfs:
             wf_tok, backlog = '-', 0
             tasks, acts = [], []
+            d._wf_final = None
         else:
             wf = wfs[0]
             wf_tok = wf.state
+            d._wf_final = (wf.state, wf.state_info, json.dumps(wf.output, sort_keys=True, default=str))
             backlog = len((wf.runtime_context or {}).get('backlog_commands') or [])
             tasks = list(db_api.get_task_executions())
             acts = list(db_api.get_action_executions())
@@ -430,6 +433,7 @@ class Observer:
         self.sw_seen = 0
         self.flagged_nojoin = set()
         self.flagged_twice = set()
+        self.prev_final = None
 
     def fail(self, prop, sig, what):
         self.failures.append({'property': prop, 'signature': sig, 'what': what, 'at_event': len(self.tr.labels) - 1})
@@ -443,6 +447,11 @@ class Observer:
         new_cas = self.d.cas_log[self.cas_seen:]
         self.cas_seen = len(self.d.cas_log)
         for kind, _id, cur, new in new_cas:
+            if kind == 'wf' and cur == new and cur in ('SUCCESS', 'ERROR', 'CANCELLED'):
+                # C03/C11: a finished workflow is never completed once again (state info, output,
+                # completion notifications and the result sent to the parent would be produced twice)
+                self.fail('C03', 'finished-wf-completed-again:%s:%s' % (cur, label.split('(')[0].split(':')[0]),
+                          'workflow already %s was set to %s again on %s' % (cur, new, label))
             if kind != 'wf' or cur == new:
                 continue
             if (cur, new) not in self.DOC_MOVES:
@@ -476,6 +485,12 @@ class Observer:
                 if pwf in ('SUCCESS', 'ERROR', 'CANCELLED') and not is_rerun:
                     self.fail('C11', 'task-created-after-stop:%s' % label.split('(')[0].split(':')[0],
                               'task created in %s workflow on %s' % (pwf, label))
+            # C03/C11: state info and output of a finished workflow are not altered either
+            fin, pfin = getattr(self.d, '_wf_final', None), self.prev_final
+            if (pfin is not None and fin is not None and pfin[0] in ('SUCCESS', 'ERROR', 'CANCELLED') and fin[0] == pfin[0]
+                    and fin != pfin and not is_rerun):
+                self.fail('C03', 'finished-wf-output-changed:%s' % label.split('(')[0].split(':')[0],
+                          'state info / output of the %s workflow changed on %s: %s -> %s' % (pfin[0], label, pfin[1:], fin[1:]))
             # C03/C11: finished workflow not altered by late results / timers / duplicates
             if pwf in ('SUCCESS', 'ERROR', 'CANCELLED') and wf != pwf and not is_rerun and not label.startswith('stop'):
                 self.fail('C11', 'finished-wf-changed:%s' % label.split('(')[0], 'workflow %s -> %s on %s' % (pwf, wf, label))
@@ -547,6 +562,7 @@ class Observer:
                 self.fail('C11', 'stop-%s-on-%s-ignored' % (want, pw), 'stop(%s) on a %s workflow left it %s' % (want, pw, wf))
         self.prev = v
         self.prev_label = label
+        self.prev_final = getattr(self.d, '_wf_final', None)
 
     def _dup_shadow(self, label):
         """A genuine message delivered AFTER its duplicate is itself the second delivery."""
